@@ -17,6 +17,8 @@ pub enum SR {
     /// then has no buckets at all instead of all ranges with count 0
     List(Vec<(i64, u64, Vec<SR>)>, bool),
     Filter(u64, Vec<SR>),
+    /// composite: all buckets in composite-key order; the page shows the first `size`
+    Comp { all: Vec<(Vec<i64>, u64, Vec<SR>)>, size: usize },
 }
 
 #[derive(Clone, Copy, PartialEq, Debug)]
@@ -161,6 +163,27 @@ fn eval_one(n: &Node, docs: &[&MDoc], all_terms: &dyn Fn(Fd) -> Vec<i64>, sem: S
             let g = group(docs, sem, |d| d[field.id()].iter().map(|&v| idx(v)).collect());
             SR::List((0..=cuts.len() as i64).map(|k| match g.get(&k) { Some(ids) => (k, ids.len() as u64, sub(ids)), None => (k, 0, sub(&vec![])) }).collect(), absent)
         }
+        Agg::Composite { sources, size } => {
+            let mut m: BTreeMap<Vec<i64>, Vec<usize>> = BTreeMap::new();
+            for (i, d) in docs.iter().enumerate() {
+                let per: Vec<Vec<i64>> = sources.iter().map(|s| csrc_vals(s, d, sem.per_value)).collect();
+                if per.iter().any(|v| v.is_empty()) { continue; }
+                let mut combos: Vec<Vec<i64>> = vec![vec![]];
+                for vs in &per {
+                    combos = combos.into_iter().flat_map(|c| vs.iter().map(move |v| { let mut c2 = c.clone(); c2.push(*v); c2 })).collect();
+                }
+                for c in combos { m.entry(c).or_default().push(i); }
+            }
+            let mut all: Vec<(Vec<i64>, u64, Vec<SR>)> = m.iter().map(|(k, ids)| (k.clone(), ids.len() as u64, sub(ids))).collect();
+            all.sort_by(|a, b| {
+                for (i, s) in sources.iter().enumerate() {
+                    let c = if s.desc { b.0[i].cmp(&a.0[i]) } else { a.0[i].cmp(&b.0[i]) };
+                    if c != std::cmp::Ordering::Equal { return c; }
+                }
+                std::cmp::Ordering::Equal
+            });
+            SR::Comp { all, size: *size as usize }
+        }
         Agg::Filter { field, code } => {
             let ids: Vec<usize> = (0..docs.len()).filter(|&i| docs[i][field.id()].contains(code)).collect();
             SR::Filter(ids.len() as u64, sub(&ids))
@@ -177,7 +200,8 @@ pub fn metric_value(s: &SR, prop: &str) -> Option<f64> {
             let avg = if *count > 0 { Some(sumf / *count as f64) } else { None };
             match (kind, prop) {
                 (MK::Count, _) | (MK::Stats, "count") => Some(*count as f64),
-                (MK::Sum, _) => if *count > 0 { Some(sumf) } else { None },
+                // the final stage orders by the FINAL values, where an empty sum is 0 (not null)
+                (MK::Sum, _) => Some(sumf),
                 (MK::Stats, "sum") => Some(sumf),
                 (MK::Min, _) | (MK::Stats, "min") => min.map(|v| v as f64 * fac),
                 (MK::Max, _) | (MK::Stats, "max") => max.map(|v| v as f64 * fac),
@@ -206,6 +230,7 @@ pub fn srs_to_lean(srs: &[SR], ranks: &Ranks) -> String {
             }
             SR::List(bs, _) => format!("L[{}]", buckets(bs, ranks, None)),
             SR::Filter(c, s) => format!("F[{c}:{}]", srs_to_lean(s, ranks)),
+            SR::Comp { .. } => "N".into(),
         }
     }
     match srs.len() {
@@ -222,6 +247,7 @@ pub fn bucket_count_all(srs: &[SR]) -> u64 {
         SR::Terms { all, size, .. } => all[..(*size).min(all.len())].iter().map(|b| 1 + bucket_count_all(&b.2)).sum(),
         SR::List(bs, _) => bs.iter().map(|b| 1 + bucket_count_all(&b.2)).sum(),
         SR::Filter(_, s) => bucket_count_all(s),
+        SR::Comp { all, size } => all[..(*size).min(all.len())].iter().map(|b| 1 + bucket_count_all(&b.2)).sum(),
         _ => 0,
     }).sum()
 }
@@ -233,6 +259,7 @@ pub fn bucket_count(srs: &[SR]) -> u64 {
         SR::List(_, true) => 0,
         SR::List(bs, false) => bs.iter().map(|b| 1 + bucket_count(&b.2)).sum(),
         SR::Filter(_, s) => bucket_count(s),
+        SR::Comp { all, size } => all[..(*size).min(all.len())].iter().map(|b| 1 + bucket_count(&b.2)).sum(),
         _ => 0,
     }).sum()
 }
